@@ -27,6 +27,9 @@ import AmaranthVerif.Spec.MemoryRows
 * `(enw <kind> <gran>)`  kind = `(plain <w> <u|s>)` | `(array <elem width> <length>)` | `(castable <w>)`,
   gran = `none` | `other` | int  →  `ok enw=<n> gran=<bits>` | `TypeError` | `ValueError`
 * `(initchk <depth|none> <n init>)`, `(rdchk <dom|-1> (<(p <same 0|1> <dom>)|x>*))`, `(wrchk <dom|-1>)` → `ok` | error kind
+* `(mkcfg <kind> <depth> <n init rows> (wrs (<dom|-1> <gran>)*) (rds (<dom|-1> (<write port index>*))*))` → `Mem.mkCfg`
+  (the whole sequence `Memory(...)`, `write_port(...)`…, `read_port(...)`…): `ok wrs=<dom>:<gran bits>:<enw>,… rows=<n> rd=<n>`
+  or the kind of the first exception
 * `(abits <depth>)` → `<n>`;  `(merge <value> <mask> <old>)` → Python's `(value & mask) | (old & ~mask)`;
   `(repl <g> <n> <en>)` → value of `Cat(bit.replicate(g) for bit in en)`.
 -/
@@ -173,6 +176,14 @@ def domArg (x : Sexp) : Option (Option Nat) := do
   let d ← x.toInt?
   some (if d < 0 then none else some d.toNat)
 
+def parseWrArg : Sexp → Option WrArg
+  | .list [d, g] => do some ⟨← domArg d, ← parseGran g⟩
+  | _ => none
+
+def showCfg (c : Cfg) : String :=
+  let ws := ",".intercalate (c.wrs.map fun w => s!"{w.dom}:{w.gran}:{w.enw}")
+  s!"ok wrs={ws} rows={(init c).rows.length} rd={(init c).rdata.length}"
+
 def showExcept : Except String Unit → String
   | .ok _ => "ok"
   | .error e => e
@@ -209,6 +220,13 @@ def respond (line : String) : String :=
     match domArg d with
     | some d => showExcept (writePortCheck d)
     | none => "error bad-request"
+  | some (.list [.atom "mkcfg", k, d, n, .list (.atom "wrs" :: ws), .list (.atom "rds" :: rs)]) =>
+    match parseKind k, d.toNat?, n.toNat?, ws.mapM parseWrArg, rs.mapM parseRd with
+    | some k, some d, some n, some ws, some rs =>
+      match mkCfg k d (List.replicate n 0) (List.replicate 2 ⟨true, .sync⟩) ws rs with
+      | .ok c => showCfg c
+      | .error e => e
+    | _, _, _, _, _ => "error bad-request"
   | some (.list [.atom "abits", d]) =>
     match d.toNat? with
     | some d => toString (ceilLog2 d)
